@@ -307,6 +307,36 @@ def check_instance_case(ctx, case, ops, res, rc, err, files, mexe, problems):
     # output stream (string vs file vs model)
     if sw["OutputStringOn"] and obs["out"] != model.get("out_s", ""):
         bad("out_string", "output string differs from the event fold", observed=obs["out"][:200], expected=model.get("out_s", "")[:200])
+    # 3b. the heading line of the string/file names the same columns, in the same order, as row 0 of the table
+    #     (heading text is "Na" where the table heading is "Na(mol/kgw)"; user-punch values beyond the headings have no heading text)
+    for n in uns:
+        o = obs["sel"].get(str(n))
+        if o is None or not o["table"] or n not in model["table"]:
+            continue
+        heads_tab = [vlib.cell_value(c) for c in o["table"][0]]
+        # heading chunks = punch_msg events of n before its first value of the call (last heading block before the first row)
+        toks, cur = [], []
+        for e in events:
+            if e.get("n") != n:
+                continue
+            if e["k"] == "pval":
+                break
+            if e["k"] == "pmsg":
+                if e["s"] == "\n":
+                    toks, cur = cur, []
+                else:
+                    cur.append(e["s"].strip())
+        toks = [t for t in toks if t != ""]
+        if len(set(toks)) != len(toks):
+            continue       # duplicate heading names share one table column by design (TestDuplicateHeadings): no positional correspondence
+        for k, t in enumerate(toks):
+            if k >= len(heads_tab):
+                bad("heading-order", "the heading line of user number %d has more names (%d) than the table has columns (%d)" % (n, len(toks), len(heads_tab)), n=n)
+                break
+            h = heads_tab[k]
+            if not (h == t or h.split("(")[0] == t or h.startswith(t) or t.startswith(h)):
+                bad("heading-order", "column %d of user number %d: the heading line says %r but the values of that position are stored under %r (headings and values are emitted in different orders)" % (k, n, t, h), n=n)
+                break
     # 4. each text cell is the table value rendered in the block's format; table cell = value punched
     for e in events:
         if e["k"] == "pval":
